@@ -40,6 +40,12 @@ CHECKS = {
  "C09": (True, "model_checking", "exhaustive enumeration: frame sequences x ALL partitions of the byte stream into reads (all compositions for short streams, all single/double cuts + uniform chunks otherwise) x error-delivery variants, against the reference reassembly; buffer capacity read by reflection",
          "Every sequence of <=3 (thorough: 4) frames over a 16-frame alphabet (ids below/at/above the watermark, kind change, control bits, oversized, padded integers, malformed, truncated) and every run of 6 (5-8) small frames over a 4-frame alphabet, with MaximumBufferSize 4 (1,4,8), is fed to the real drpcwire.Reader under every composition of the byte stream into non-empty reads (streams <=14/16 bytes) or all single (double) cuts and uniform chunk sizes, with the final error delivered after or together with the last data and with zero-length reads interleaved (99 tolerated, 100 = ErrNoProgress); long single/multi-frame packets around 4096-31, 4096, 70000 (4 MiB). Oracle: (packets, first error class) identical for all splits and equal to refwire's reassembly; sum of capacities of the reader's byte slices <= 4*max+32KiB.",
          "Reference reassembly treats ids as naturals (message id 2^64-1 wrap not generated); an incomplete frame longer than max at end of stream may be reported as oversized or as end of stream.", "4/C09"),
+ "C03": (True, "model_checking", "explicit enumeration of all operation/packet sequences (data choices of the explorer) on a real Stream under the controlled scheduler, compared step by step with an independent reference state machine; breadth-first search over reference-model states for longer chains with shortest-path replay on fresh objects",
+         "All sequences of length <=5 (thorough: 6) over the 17-symbol alphabet (MsgSend, MsgRecv, CloseSend, Close, SendError, Cancel, SendCancel, RawFlush; packets Message, CloseSend, Close, Error, Cancel, Invoke, unknown with/without control bit, foreign stream id), with automatic and manual flushing, each symbol run in its own scheduled goroutine until it returns or blocks (blocked receives and an undelivered message are the in-flight operations); then from every state of the reference model (found by BFS to depth 8/10, re-reached by its shortest path on a fresh stream) all sequences of 2 (3) further symbols; thorough adds one scheduling deviation inside every length-3 sequence. After every step: result class of every call that returned (nil / io.EOF / exact cancel error / remote text+code / ClosedError / ProtocolError / InternalError / some error), frames emitted (kind, control, done, strictly increasing ids), Terminated, Finished, Context().Done(), Context().Err().",
+         "Sequences with a write parked inside the transport are covered by C04/C07/C12 harnesses, not by this reference model; one packet handler at a time (calling contract).", "4/C03 + Appendix A"),
+ "C07": (True, "model_checking", "stateless model checking of the real code: 2-3 (4) concurrent API actors on one stream / handler senders racing SendError, deviation bound 1-2, every Transport.Write with a begin and an end scheduling point; reference frame parser + real reader on the write log",
+         "Subsets of {two multi-frame senders, half-close, close, context cancel, next RPC} run concurrently on a client stream (split size 2 / writer buffer 1 so that every frame is its own write, and defaults), and handler goroutines send while the handler returns an error; both cancel modes; thorough adds 4 actors and writes parked at the j-th call. Oracle on the bytes passed to Transport.Write: whole well-formed frames, non-decreasing (stream, message) ids, one kind per id, nothing after the final frame of an id, accepted by the real drpcwire.Reader; never two Writes nor two Reads in flight; Close at most once.",
+         "Deviation bound 1-2; model transport.", "4/C07"),
 }
 ALL = ["C%02d" % i for i in range(1, 20)]
 NOT_BUILT_REASON = "check not built yet in this round (planned: see DESIGN.md section 4); not claimed until it exists"
